@@ -160,6 +160,10 @@ theorem auto_noprev_within_limit {limit isz : Nat} {shape : List Nat} {chunks r 
 example : autoChunks [.auto, .auto] [20, 30] 4 none ⟨[⟨4, 1⟩], false, [], []⟩ = .ok [.int 4, .int 4] := by rfl
 example : SizesSound 64 4 [20, 30] [.auto, .auto] [⟨4, 1⟩] ∧ 4 * largestBlockSpec [.auto, .auto] ≤ 64 := by
   refine ⟨sizesSoundB_sound _ _ _ _ _ (by decide), by decide⟩
+/-- the three hypotheses of `normalize_sum_pos_auto` for that call -/
+example : preNormalize (.scalar .auto) [20, 30] (some 64) = .ok [.auto, .auto] ∧
+    normalize (.scalar .auto) [20, 30] (some 64) (some [.int 4, .int 4]) =
+      .ok [[4, 4, 4, 4, 4], [4, 4, 4, 4, 4, 4, 4, 2]] := ⟨by rfl, by rfl⟩
 /-- a small dimension is fixed to its full length first (`shape[1] = 2 < size = 4`), then `size = 8` -/
 example : autoChunks [.auto, .auto, .int 2] [20, 2, 4] 1 none ⟨[⟨4, 1⟩, ⟨8, 1⟩], false, [], []⟩ =
     .ok [.int 8, .tup [2], .int 2] := by rfl
